@@ -133,8 +133,19 @@ def r2_config(ctx):
     mi = _ctor_params(ix.cls("pandera/api/pandas/components.py::MultiIndex"))
     ts = model.method("to_schema")
     ctx.touched(ts)
-    dicts = [s.value for s in function_stmts(ts) if isinstance(s, ast.Assign) and isinstance(s.value, ast.Dict)
-             and any(isinstance(t, ast.Name) and t.id == "kwargs" for t in s.targets)]
+    # the dict(s) that may flow into `cls.build_schema_(**<kwargs>)`
+    from ..util import Expander
+    ex = Expander(ts.node)
+    dicts = []
+    for c in calls_in(ts.node):
+        if callee_last(c) == "build_schema_":
+            for k in c.keywords:
+                if k.arg is None:
+                    for e in ex.closure(k.value):
+                        if isinstance(e, ast.Dict) and e.keys:
+                            dicts.append(e)
+    if not dicts:
+        raise AnalysisError("to_schema: no option dict flows into build_schema_(**...)")
     keys = {}
     for d in dicts:
         keys.update(_dict_keys(d))
